@@ -7,6 +7,7 @@ from ..rules import baseline_owners, where_of
 from ..terms import head, show, strip, walk
 
 CLAIMED = True
+NO_DEPENDENCY_CLOSURE = True      # a purity property: every function is analysed for writes by this module itself; what callees *return* is not its business
 LEVEL = "other"
 TECHNIQUE = "may-alias / effect analysis with bottom-up mutation summaries over the resolved call graph (fixpoint); inventories of mutable defaults, global stores, class-level state, caching decorators and random sources"
 TEXT = ("Decides that no public function or method (thorough: no function at all) can write - directly or through a callee, following aliases through "
